@@ -350,8 +350,8 @@ class Check(PropertyCheck):
         for e in events:
             if len(e) == 2:
                 b = unhx(e[1])
-                if 1 < len(b) <= 80: out.extend([e[0], hx(b[i:i + 1])] for i in range(len(b)))
-                elif len(b) > 80: out.extend([[e[0], hx(b[:len(b) // 3])], [e[0], hx(b[len(b) // 3:])]])
+                if 1 < len(b) <= 160: out.extend([e[0], hx(b[i:i + 1])] for i in range(len(b)))
+                elif len(b) > 160: out.extend([[e[0], hx(b[:len(b) // 3])], [e[0], hx(b[len(b) // 3:])]])
                 else: out.append(list(e))
             else: out.append(list(e))
         return out
